@@ -88,13 +88,15 @@ def astar[S](
         iterations += 1
         closed.add(current)
 
+        # Beyond the cost limit nothing counts, the goal included: nodes over the limit are not expanded, so a goal
+        # popped over the limit may owe its cost to a detour around a pruned node
+        if max_cost is not None and g[current] > max_cost:
+            continue
+
         if is_goal(current):
             path = reconstruct_path(parent, current)
             status = Status.OPTIMAL if weight == 1.0 else Status.FEASIBLE
             return Result(path, g[current], iterations, evaluations, status)
-
-        if max_cost is not None and g[current] > max_cost:
-            continue
 
         for neighbor, edge_cost in neighbors(current):
             if neighbor in closed:
